@@ -35,11 +35,24 @@ def rectg(c1, r1, c2, r2, l=False):
     return geo("rect", c1, r1, l, l, c2, r2, l, l)
 
 
+KIND_ORDER = ["line", "pie", "bar", "area"]      # the library lists the kinds of a plot area in this order
+
+
+def chart_entry(ch):
+    """(on, series refs[, kind per series]): the series are listed kind by kind in the library's order; more than one
+    kind makes a combination chart (several chart kinds in one plot area)"""
+    on, ts = ch[0], ch[1]
+    kinds = list(ch[2]) if len(ch) > 2 else ["line"] * len(ts)
+    order = sorted(range(len(ts)), key=lambda i: (KIND_ORDER.index(kinds[i]), i))
+    ts, kinds = [ts[i] for i in order], [kinds[i] for i in order]
+    return {"on": on, "toks": ts, "addrs": [toktext(t) for t in ts], "kinds": kinds}
+
+
 def wb_case(cells, steps, names=(), charts=(), sheets=SHEETS):
     return {"kind": "wb", "sheets": list(sheets),
             "cells": [{"s": s, "r": r, "c": c, "toks": t, "f": render(t)} for s, r, c, t in cells],
             "names": [{"on": on, "name": nm, "tok": t, "addr": toktext(t)} for on, nm, t in names],
-            "charts": [{"on": on, "toks": ts, "addrs": [toktext(t) for t in ts]} for on, ts in sorted(charts, key=lambda x: x[0])],
+            "charts": [chart_entry(ch) for ch in sorted(charts, key=lambda x: x[0])],
             "steps": [{"a": a, "s": s, "ax": ax, "p": p, "n": n} for a, s, ax, p, n in steps]}
 
 
@@ -88,6 +101,35 @@ def exemplars():
     out.append(wb_case([(1, 30, 3, [A7])], [("Insert", 1, "row", 3, 2)], names, charts))
     out.append(wb_case([(1, 30, 3, [A7])], [("Remove", 1, "row", 5, 1)], names, charts))
     out.append(wb_case([(1, 30, 3, [A7])], [("Remove", 3, "row", 4, 2), ("Insert", 3, "col", 1, 1)], names, charts))
+    # intersections whose operands are function calls, parenthesised ranges and names (the blank between two
+    # operands is an operator and must survive every re-rendering), on the edited sheet and on another one
+    rng_ = lambda c1, r1, c2, r2: ref([], False, rectg(c1, r1, c2, r2))
+    sep, close, isect1 = tok("sep", ","), tok("close", ")"), c09.isect(1)
+    index_call = [tok("fn", "INDEX"), rng_(1, 1, 3, 6), sep, tok("num", "0"), sep, tok("num", "2"), close]
+    isects = [
+        [tok("fn", "SUM")] + index_call + [isect1, rng_(1, 3, 3, 4), close],                  # SUM(INDEX(A1:C6,0,2) A3:C4)
+        [tok("open", "("), rng_(1, 1, 2, 6), close, c09.isect(2), rng_(2, 3, 3, 8)],            # (A1:B6)  B3:C8
+        [nametok("rate"), isect1, rng_(1, 3, 3, 4)],                                          # rate A3:C4
+        [nametok("Total"), isect1, tok("open", "("), rng_(1, 3, 3, 4), close],                # Total (A3:C4)
+        [rng_(1, 1, 3, 9), isect1, tok("fn", "OFFSET"), rng_(2, 2, 2, 5), sep, tok("num", "1"), sep, tok("num", "0"), close],
+        [tok("fn", "SUM")] + index_call[:-1] + [close, isect1, tok("fn", "INDEX"), ref("S1", False, rectg(1, 2, 3, 7)), sep, tok("num", "1"), close, close],
+        [tok("open", "("), rng_(1, 1, 2, 6), close, isect1, tok("open", "("), ref("S1", False, rectg(2, 3, 3, 8)), close],
+    ]
+    for k, f in enumerate(isects):
+        s_own = 1 + k % 2
+        out.append(wb_case([(s_own, 30, 6, f), (3 - s_own, 31, 6, f)],
+                           [("Insert", 1, "row", 2, 2), ("Remove", 2, "col", 1, 1), ("Remove", 1, "row", 3, 1)]))
+    # combination charts: two and three chart kinds in one plot area, every kind with a series into the edited sheet
+    # and one into another sheet, next to a single-kind chart
+    ser = lambda sh, c, r1, r2: qref(sh, rectg(c, r1, c, r2, True))
+    combo2 = (2, [ser("S1", 2, 2, 6), ser("My Sheet", 3, 2, 6), ser("S1", 4, 2, 6), ser("My Sheet", 2, 4, 9)], ["bar", "bar", "line", "line"])
+    combo3 = (1, [ser("S1", 1, 3, 8), ser("My Sheet", 1, 3, 8), ser("S1", 2, 3, 8), ser("My Sheet", 2, 1, 5), ser("S1", 3, 5, 7), ser("My Sheet", 3, 2, 4)],
+              ["area", "area", "line", "line", "bar", "bar"])
+    single = (3, [ser("S1", 5, 2, 6), ser("My Sheet", 5, 2, 6)], ["pie", "pie"])
+    for steps in ([("Insert", 1, "row", 1, 2), ("Remove", 1, "col", 1, 1), ("Insert", 2, "row", 1, 3)],
+                  [("Insert", 2, "col", 2, 1), ("Remove", 2, "row", 5, 2)],
+                  [("Remove", 1, "row", 4, 1), ("Insert", 3, "row", 1, 1), ("Insert", 1, "col", 3, 2)]):
+        out.append(wb_case([(3, 40, 9, [A7])], steps, [], [combo2, combo3, single]))
     return out
 
 
@@ -151,11 +193,24 @@ def random_cases(rng, count, depth_max):
                         g = rectg(g["c1"], MAXROW - 3, g["c1"], MAXROW, True)
                 g = dict(g, lc1=True, lr1=True, lc2=True, lr2=True)
                 ts.append(qref(target, g))
-            charts.append((rng.randint(1, len(sheets)), ts))
+            nk = rng.choice([1, 1, 2, 3])
+            if nk > 1:                      # combination chart: every kind gets a series into each chartable sheet
+                kinds_used = rng.sample(KIND_ORDER, nk)
+                ts2, kinds = [], []
+                for kd in kinds_used:
+                    for target in chartable[:2]:
+                        g = c09.Gen(rng, small=small).geometry()
+                        c1, r1 = (g["c1"] or 1), (g["r1"] or 1)
+                        r1 = min(r1, MAXROW - 3)
+                        ts2.append(qref(target, rectg(c1, r1, c1, r1 + rng.randint(0, 3), True)))
+                        kinds.append(kd)
+                charts.append((rng.randint(1, len(sheets)), ts2, kinds))
+            else:
+                charts.append((rng.randint(1, len(sheets)), ts, [rng.choice(KIND_ORDER)] * len(ts)))
         # histories: positions next to the coordinates the formulas mention; `top` bounds every occupied or
         # referenced line from above (raised by every edit: chart series grow even under removal, C08-KF12)
         top = {}
-        alltoks = [(t, sheets[s - 1]) for s, _r, _c, t in cells] + [([n[2]], "") for n in names] + [(ts, "") for _on, ts in charts]
+        alltoks = [(t, sheets[s - 1]) for s, _r, _c, t in cells] + [([n[2]], "") for n in names] + [(ch[1], "") for ch in charts]
         for si, sh in enumerate(sheets, 1):
             for ax in ("row", "col"):
                 vals = [v for t, own in alltoks for v in coords_of(t, own, sh, ax)]
@@ -198,6 +253,15 @@ def gen_cases(chk):
         if not r.ok or not r.replays:
             raise vlib.ToolError(f"replay generation with {cfg} failed: " + (r.violation or r.out[-500:]))
         cases += [from_replay(rp) for rp in r.replays]
+    # intersections with function calls / parenthesised ranges / names as operands (5-token formulas of the model):
+    # all behaviours whose formula contains an intersection (quick: a seeded sample of them)
+    r = vlib.run_tlc("MC_Formula", "MC_Formula_replay_isect.cfg", workers=4, coverage=False, timeout=3000)
+    if not r.ok or not r.replays:
+        raise vlib.ToolError("replay generation with MC_Formula_replay_isect.cfg failed: " + (r.violation or r.out[-500:]))
+    with_isect = [rp for rp in r.replays if any(t["k"] == "isect" for x in rp[0]["cells"] for t in x["toks"])]
+    if quick:
+        with_isect = rng.sample(with_isect, min(1200, len(with_isect)))
+    cases += [from_replay(rp) for rp in with_isect]
     n1 = len(cases)
     cases += random_cases(rng, 1500 if quick else 40000, 4 if quick else 6)
     hangs = hang_cases()
